@@ -372,6 +372,17 @@ where
                             if ctx.on("C13") && run.coder.clone().into_remainders() != pre.clone().into_remainders() {
                                 viol!(ctx, "C13", "chain-state-changed-by-failed-decode", "heads {} -> {}", pre.heads_debug(), run.coder.heads_debug());
                             }
+                            // "never whether or when the coder runs out of data": once it has,
+                            // it stays out of data however often (and with whichever model) one asks
+                            if ctx.on("C14") {
+                                for attempt in 0..3 {
+                                    let again = run.coder.dec(b);
+                                    ctx.stats.hit("op-retry-after-out-of-data");
+                                    if !matches!(&again, DecRes::Frontend(e) if e == "OutOfCompressedData") {
+                                        viol!(ctx, "C14", "chain-decodes-after-running-out-of-data", "symbol {}: retry {} after OutOfCompressedData returned {:?}", run.symbols.len(), attempt + 1, again);
+                                    }
+                                }
+                            }
                             run.out_of_data_at = Some(i);
                             break;
                         }
@@ -647,8 +658,11 @@ pub fn generate(seed: u64, prop: &str, _thorough: bool) -> ChainTrace {
     let usable: Vec<u8> = precisions.iter().cloned().filter(|p| MENU.iter().any(|(pb, q)| q == p && (*pb as u32) <= wb)).collect();
     // C14 speaks about a fixed PRECISION; precision changes can fail depending on the
     // remainders head (which legitimately depends on the decoded symbols)
-    let schedule = prop != "C14" && bias.chance(1, 3) && usable.len() > 1;
-    let p0 = *rng.pick(&usable);
+    // ... so C14 runs either keep one PRECISION or only ever *increase* it (an increase cannot
+    // fail and the chunk boundaries stay a function of the schedule alone)
+    let ascending = prop == "C14";
+    let schedule = bias.chance(1, 3) && usable.len() > 1;
+    let p0 = if ascending && schedule { usable[rng.usize((usable.len() + 1) / 2)] } else { *rng.pick(&usable) };
     let mut models: Vec<ModelSpec> = Vec::new();
     let mut by_p: std::collections::BTreeMap<u8, Vec<usize>> = Default::default();
     let want_ps: Vec<u8> = if schedule { usable.clone() } else { vec![p0] };
@@ -676,7 +690,13 @@ pub fn generate(seed: u64, prop: &str, _thorough: bool) -> ChainTrace {
     let mut n_dec = 0;
     for _ in 0..n_steps {
         if schedule && rng.chance(1, 6) {
-            p = *rng.pick(&usable);
+            if ascending {
+                let higher: Vec<u8> = usable.iter().cloned().filter(|q| *q > p).collect();
+                if higher.is_empty() { continue; }
+                p = *rng.pick(&higher);
+            } else {
+                p = *rng.pick(&usable);
+            }
             steps.push(ChainStep::ChangeP { p });
         } else if let Some(ms) = by_p.get(&p) {
             steps.push(ChainStep::Dec { m: *rng.pick(ms) });
